@@ -33,6 +33,10 @@
 (*         subtable of the best class present (best).                      *)
 (*  tdec   a spec-encoded table through cmap.Decode (libdec) and again     *)
 (*         through Encode (redir, reshare).                                *)
+(*  renc/rdec  like tenc/tdec with RAW subtable bodies (bytes): every       *)
+(*         format number a Table can hold, odd and even lengths; tile =     *)
+(*         offsets are the running sum of the emitted lengths (a note).     *)
+(*  enc with dom = 0: size families just beyond the 64 KiB limit (note).    *)
 (*  hE/hG/hT/hD  one call of a call HISTORY (CmapHist.tla): an encoder, a   *)
 (*         Table.Get, a Table.Encode, a cmap.Decode.  The harness kept the  *)
 (*         real result and recorded it when it was handed out (1), after    *)
@@ -85,7 +89,10 @@ EncWF == E.odd = 0 /\ E.nbytes = 2 * Len(E.w)
 \* x/image does not add idDelta to glyphIdArray entries: it is a conforming decoder only for
 \* tables whose explicit arrays have idDelta = 0 (what the library writes today; other choices are legal).
 XConforms == E.fmt = 12 \/ (EncWF /\ \A i \in 0..SegCount4(E.w) - 1 : RO4(E.w, i) # 0 => Delta4(E.w, i) = 0)
-EncClause(n) ==
+\* dom = 1: the map is in the domain (some encoding has at most 65535 bytes).  dom = 0 (size families just
+\* beyond the limit): nothing is demanded; "nowrap" -- the encoder refuses (panics) or writes a well-formed
+\* table, it never writes a wrapped length field -- is reported as a note only.
+EncClauseD(n) ==
   CASE n = "map"    -> IsMap(In, IF E.fmt = 4 THEN MaxCode ELSE MaxCP)
     [] n = "wf"     -> EncWF
     [] n = "agree"  -> EncWF => IF E.fmt = 4 THEN Agree4(E.w, P) ELSE Agree12(E.w, P)
@@ -93,7 +100,15 @@ EncClause(n) ==
     [] n = "lib"    -> E.lok = 1 /\ Below(Sweep(E.lc, E.lg), IF E.fmt = 4 THEN MaxCode ELSE MaxCP) = P
     [] n = "lib_hi" -> Above(Sweep(E.lc, E.lg), IF E.fmt = 4 THEN MaxCode ELSE MaxCP) = <<>>
     [] n = "ximg"   -> E.xi = 1 /\ XConforms => E.xok = 1 /\ Sweep(E.xc, E.xg) = P
-EncNames == {"map", "wf", "agree", "probe", "lib", "lib_hi", "ximg"}
+    [] n = "nowrap" -> TRUE
+\* A size-family map (tight > 0) sits at the boundary: the repository does not promise a minimal encoding, so
+\* a loud refusal (panic) is accepted there; a table with a wrapped length field is not.
+EncClause(n) ==
+  IF E.dom = 1 /\ E.tight > 0 /\ E.pan # "" THEN TRUE
+  ELSE IF E.dom = 1 THEN EncClauseD(n)
+  ELSE IF n = "nowrap" THEN E.pan # "" \/ (EncWF /\ Agree4(E.w, P))
+  ELSE TRUE
+EncNames == {"map", "wf", "agree", "probe", "lib", "lib_hi", "ximg", "nowrap"}
 
 \* ------------------------------------------------------------------ dec
 SpecWF(w, f, lang) == CASE f = 0 -> WF0(w, lang) [] f = 4 -> WF4(w, lang) [] f = 6 -> WF6(w, lang) [] f = 12 -> WF12(w, lang)
@@ -136,22 +151,84 @@ ShareMatches(b, subs) ==
 LibDecMatches(ok, dk, db, keys, subs) ==
   /\ ok = 1 /\ Len(dk) = Len(keys) /\ Len(db) = Len(keys)
   /\ \A j \in 1..Len(keys) : dk[j] = KeyOf(keys[j]) /\ db[j] = WordsToBytes(subs[j])
+\* Access paths (API agreement).  gs[j] = <<ok, codes, glyphs>>: Lookup swept on Get(key j);
+\* nl[x] = <<platform, encoding, ok, codes, glyphs>>: GetNoLang; bs = <<ok, codes, glyphs>>: GetBest.
+\* Get and GetBest denote the map the platform's encoding defines: Macintosh Roman codes are read as Mac Roman
+\* (or, uniformly, as raw codes -- the two-readings rule of the mac events); GetNoLang is only tested by the
+\* repository as the raw reading, so either reading is accepted there.  GetBest must be THE SAME map as Get
+\* on a key of the best class.
+SubPairs(w) == SpecPairs(w, W(w, 0))
+IsReading(sw, w, pid) == sw = SubPairs(w) \/ (pid = 1 /\ W(w, 0) # 12 /\ sw = MacToUnicode(SubPairs(w)))
+GetMapOK(keys, subs, gs) ==
+  /\ Len(gs) = Len(keys)
+  /\ \A j \in 1..Len(keys) :
+       IF keys[j][1] = 1 /\ keys[j][2] # 0 THEN TRUE                          \* only Mac Roman is supported
+       ELSE gs[j][1] = 1 /\ IsReading(Sweep(gs[j][2], gs[j][3]), subs[j], keys[j][1])
+NoLangMapOK(keys, subs, nl) ==
+  \A x \in 1..Len(nl) :
+    LET c == {j \in 1..Len(keys) : keys[j][1] = nl[x][1] /\ keys[j][2] = nl[x][2]}
+    IN c # {} => nl[x][3] = 1 /\ \E j \in c : IsReading(Sweep(nl[x][4], nl[x][5]), subs[j], keys[j][1])
+BestKeys(keys) ==
+  LET k0 == {<<keys[j][1], keys[j][2]>> : j \in {i \in 1..Len(keys) : keys[i][3] = 0}}
+  IN {j \in 1..Len(keys) : keys[j][3] = 0 /\ <<keys[j][1], keys[j][2]>> \in BestClass(k0)}
+BestGetOK(keys, gs, bs) ==
+  BestKeys(keys) # {} /\ Len(gs) = Len(keys) =>
+    bs[1] = 1 /\ \E j \in BestKeys(keys) : gs[j][1] = 1 /\ bs[2] = gs[j][2] /\ bs[3] = gs[j][3]
+
 TencClause(n) ==
   CASE n = "dir"    -> DirMatches(E.tb, E.keys, E.subs)
+    [] n = "get_map"    -> GetMapOK(E.keys, E.subs, E.gs)
+    [] n = "nolang_map" -> NoLangMapOK(E.keys, E.subs, E.nl)
+    [] n = "best_get"   -> BestGetOK(E.keys, E.gs, E.bs)
     [] n = "share"  -> ShareMatches(E.tb, E.subs)
     [] n = "libdec" -> LibDecMatches(E.dok, E.dk, E.db, E.keys, E.subs)
     [] n = "best"   -> IF E.best = <<>> THEN TRUE       \* no Unicode or Macintosh Roman subtable: nothing is promised
                        ELSE E.bok = 1 /\ \E i \in 1..Len(E.best) : E.best[i] = E.bg
-TencNames == {"dir", "share", "libdec", "best"}
+TencNames == {"dir", "share", "libdec", "best", "get_map", "nolang_map", "best_get"}
 
 TdecClause(n) ==
   CASE n = "specwf"  -> DirMatches(E.tb, E.keys, E.subs)
+    [] n = "get_map"    -> E.dok = 1 => GetMapOK(E.keys, E.subs, E.gs)
+    [] n = "nolang_map" -> E.dok = 1 => NoLangMapOK(E.keys, E.subs, E.nl)
+    [] n = "best_get"   -> E.dok = 1 => BestGetOK(E.keys, E.gs, E.bs)
     [] n = "libdec"  -> LibDecMatches(E.dok, E.dk, E.db, E.keys, E.subs)
     [] n = "redir"   -> E.dok = 1 => DirMatches(E.rb, E.keys, E.subs)
     [] n = "reshare" -> E.dok = 1 => ShareMatches(E.rb, E.subs)
     [] n = "best"    -> IF E.best = <<>> \/ E.dok # 1 THEN TRUE
                         ELSE E.bok = 1 /\ \E i \in 1..Len(E.best) : E.best[i] = E.bg
-TdecNames == {"specwf", "libdec", "redir", "reshare", "best"}
+TdecNames == {"specwf", "libdec", "redir", "reshare", "best", "get_map", "nolang_map", "best_get"}
+
+\* ------------------------------------------------------- raw subtable bodies
+\* keys: <<platform, encoding, language>>, subs: BYTES of every format number and length parity
+DirMatchesB(b, keys, subs) ==
+  /\ WFTable(b)
+  /\ NumTables(b) = Len(keys)
+  /\ LET t == TableDec(b) IN
+     \A j \in 1..Len(keys) : <<t[j][1], t[j][2], t[j][3]>> = keys[j] /\ t[j][4] = subs[j]
+LibDecMatchesB(ok, dk, db, keys, subs) ==
+  /\ ok = 1 /\ Len(dk) = Len(keys) /\ Len(db) = Len(keys)
+  /\ \A j \in 1..Len(keys) : dk[j] = keys[j] /\ db[j] = subs[j]
+\* offsets are the running sum of the emitted lengths: the distinct subtables tile the table
+TiledB(b) ==
+  WFTable(b) =>
+    LET t    == TableDec(b)
+        offs == SortSeq(FoldLeft(LAMBDA acc, y : IF \E i \in 1..Len(acc) : acc[i] = y THEN acc ELSE Append(acc, y),
+                                 <<>>, [j \in 1..Len(t) |-> t[j][5]]), LAMBDA x, y : x < y)
+    IN offs # <<>> => /\ offs[1] = 4 + 8 * NumTables(b)
+                      /\ \A i \in 1..Len(offs) - 1 : offs[i + 1] = offs[i] + SubLen(b, offs[i])
+                      /\ Last(offs) + SubLen(b, Last(offs)) = Len(b)
+RencClause(n) ==
+  CASE n = "dir"    -> DirMatchesB(E.tb, E.keys, E.subs)
+    [] n = "share"  -> ShareMatches(E.tb, E.subs)
+    [] n = "libdec" -> LibDecMatchesB(E.dok, E.dk, E.db, E.keys, E.subs)
+    [] n = "tile"   -> TiledB(E.tb)
+RdecClause(n) ==
+  CASE n = "specwf"  -> DirMatchesB(E.tb, E.keys, E.subs) /\ TiledB(E.tb)
+    [] n = "libdec"  -> LibDecMatchesB(E.dok, E.dk, E.db, E.keys, E.subs)
+    [] n = "redir"   -> E.dok = 1 => DirMatchesB(E.rb, E.keys, E.subs)
+    [] n = "reshare" -> E.dok = 1 => ShareMatches(E.rb, E.subs)
+    [] n = "tile"    -> E.dok = 1 => TiledB(E.rb)
+RawNames == {"dir", "share", "libdec", "tile", "specwf", "redir", "reshare"}
 
 \* -------------------------------------------------------------- histories
 \* a subtable is well formed for its own language field
@@ -245,6 +322,8 @@ Fails == CASE E.ev = "enc"  -> {n \in EncNames : ~EncClause(n)}
            [] E.ev = "mac"  -> {n \in MacNames : ~MacClause(n)}
            [] E.ev = "tenc" -> {n \in TencNames : ~TencClause(n)}
            [] E.ev = "tdec" -> {n \in TdecNames : ~TdecClause(n)}
+           [] E.ev = "renc" -> {n \in {"dir", "share", "libdec", "tile"} : ~RencClause(n)}
+           [] E.ev = "rdec" -> {n \in {"specwf", "libdec", "redir", "reshare", "tile"} : ~RdecClause(n)}
            [] E.ev = "hE"   -> {n \in HNames : ~HEClause(n)}
            [] E.ev = "hG"   -> {n \in HGNames : ~HGClause(n)}
            [] E.ev = "hT"   -> {n \in HNames : ~HTClause(n)}
